@@ -261,6 +261,19 @@ class Expand(_ModeMixin, DisjointUnionStrategy):
         raise ValueError("word not in class")
 
 
+class ExpandEven(Expand):
+    """the expansion, but only for classes whose prefix has even length: together with Peel some classes get a union and a
+    product rule, some only one of them"""
+
+    def decomposition_function(self, c):
+        if len(getattr(c, "prefix", "")) % 2 == 1:
+            return None
+        return super().decomposition_function(c)
+
+    def formal_step(self):
+        return f"expand (even prefixes) {self.mode}".strip()
+
+
 class Expand2(Expand):
     """a second, competing decomposition of the same classes: the bare prefix, the one-letter extensions as single words, and
     one child per two next letters"""
@@ -906,6 +919,8 @@ def make_pack(mode="", inferral=False, symmetry=False, iterative=False, factory=
     init = [Peel(mode)]
     if rot == "two":  # two competing decompositions of every class
         exp = [[Expand(mode), Expand2(mode)]]
+    elif rot == "mixed":  # union rule only for even prefixes, the two-letter expansion for all: classes with different sets of constructors
+        exp = [[ExpandEven(mode), Expand2(mode)]]
     elif rot == "split":  # a restricted one-way relabelling first, the same relabelling two-way in the next expansion set: cycles closed by an equivalence
         exp = [[Rot(mode, 1, False, None, True)], [Rot(mode, 1, True, None, "only")]] + exp
     elif rot == "ne":
